@@ -46,6 +46,8 @@ RULE = (
     'nested channel lists containing literal 0/0.0. Non-trivial = two list '
     'arguments of different length, or nesting depth >= 2, or a tuple beside '
     'a list (out stage: a literal zero inside a list). Distinct by sha1.')
+RULE += ' ' + (
+    'Channel lists may get their elements after creation (append, item assignment, extend) before they are used.')
 ASSUMPTIONS = [
     'Empty lists are not generated (the generic expansion treats an empty '
     'list as "no list").',
